@@ -15,7 +15,9 @@ import XzVerif.Lemmas.IndexHist
 import XzVerif.Lemmas.IndexLocate
 import XzVerif.Lemmas.IndexCodec
 import XzVerif.Lemmas.IndexIterAll
+import XzVerif.Lemmas.IndexIterStable
 import XzVerif.Lemmas.IndexTreeBalance
+import XzVerif.Lemmas.FileInfoMain
 
 namespace XzVerif.C13
 open XzVerif.Index
@@ -361,6 +363,31 @@ theorem iter_survives_append_cat (h : Hist) (i : Impl.Index) (hi : h.impl = some
   obtain ⟨b1, b2⟩ := Impl.iterNext_survives hinv' hg hok hc mode
   exact ⟨⟨a1, a2⟩, b1, b2, Impl.iterRest_survives hinv' hg hok hc mode⟩
 
+/-- **Nothing is shown twice and nothing is left out across the append / cat.** Same setting as
+    `iter_survives_append_cat`, outside the F6b corner (`NotParkedGrown`: the iterator is not parked on a Stream
+    without Blocks that has Blocks afterwards): the positions of the old listing up to the iterator's position (what
+    has been shown so far, if the iteration was a single-mode one) followed by the positions shown after the
+    operation are exactly the listing of the new index — every Stream / Block / non-empty Block once, in file order. -/
+theorem iter_survives_exact (h : Hist) (i : Impl.Index) (hi : h.impl = some i)
+    (it : Impl.Iter) (hok : Impl.IterOk i it) (hc : Impl.IterCanon i it) (i' : Impl.Index)
+    (hstep : (∃ u c, i' = (Impl.append i u c).2)
+           ∨ (∃ (hs : Hist) (src : Impl.Index), hs.impl = some src ∧ i' = (Impl.cat i src).2)) (mode : Nat)
+    (hf : Spec.NotParkedGrown (Impl.abs i') (Impl.specPos i it)) :
+    Spec.listingM (Impl.abs i') mode
+      = (Spec.listingM h.spec mode).filter (fun y => !decide (Spec.above (Impl.specPos i it) y))
+        ++ (Spec.listingM (Impl.abs i') mode).filter (fun y => decide (Spec.above (Impl.specPos i it) y))
+    ∧ Impl.iterAllGo i' mode (Impl.iterFuel i') it
+        = ((Spec.listingM (Impl.abs i') mode).filter fun y => decide (Spec.above (Impl.specPos i it) y)).filterMap
+            fun p => Spec.infoAt (Impl.abs i') p.1 p.2 := by
+  obtain ⟨ha, hinv⟩ := Hist.refines h i hi
+  have hp : Spec.PrefixOf (Impl.abs i) (Impl.abs i') := by
+    rcases hstep with ⟨u, c, rfl⟩ | ⟨hs, src, hsrc, rfl⟩
+    · exact Impl.append_prefixOf hinv u c
+    · exact Impl.cat_prefixOf hinv (Hist.refines hs src hsrc).2
+  refine ⟨?_, (iter_survives_append_cat h i hi it hok hc i' hstep mode).2.2.2⟩
+  rw [← ha]
+  exact Spec.listing_split hp (Impl.specPos_curIn hinv hok) hf mode
+
 /-- instance: BLOCK iteration over two Blocks, the index then becomes the destination of a `cat` (its last group is
     reallocated in the C code), iteration continues into the moved Stream and ends -/
 example :
@@ -412,6 +439,81 @@ example :
              [⟨34359738368, 4398046511103⟩, ⟨562949953421312, 72057594037927935⟩, ⟨5, 72057594037927936⟩]] : List (List Block)),
       (Spec.decode (U64 - 1) (encodeBlocks bs)).ret = .streamEnd
       ∧ (Spec.decode (U64 - 1) (encodeBlocks bs)).index = some [⟨none, 0, bs⟩] := by decide +kernel
+
+/-! ### file_info_correct -/
+
+/-- **`lzma_file_info_decoder` on every well-formed multi-Stream file.**
+    The file is described at the specification level by `ds : List StreamDesc` (per Stream: Check ID, the Records of
+    its Blocks, the bytes of the Blocks as an abstract byte string of the recorded total size, the Stream Padding) and
+    its bytes are `fileBytes ds` = for each Stream: `lzma_stream_header_encode` ++ Block bytes ++ Index field
+    (`index_encode`) ++ `lzma_stream_footer_encode` (Backward Size = size of the Index field) ++ Stream Padding zeros —
+    the container codecs of Model/Container.lean (first conjunct: they accept every Stream and these are their outputs).
+    Hypotheses: each Stream is within the format limits (`StreamDesc.Ok`: Check ID ≤ 15, padding ≡ 0 mod 4, Unpadded Sizes
+    in range, sizes ≤ LZMA_VLI_MAX, Index ≤ Backward Size limit); the limits that `lzma_index_stream_padding` /
+    `lzma_index_cat` enforce hold for every suffix of the file (`Combinable`: file size and uncompressed size
+    ≤ LZMA_VLI_MAX, combined Index size); the memory limit suffices (`MemOk`).
+    Conclusion (allocation failure of the model's allocator oracle apart, as in `index_refines_spec_decode`): the
+    backward parser (Stream Padding counted through the 8 KiB window with re-seeks, Stream Footer, Index decoded from
+    exactly Backward Size bytes, seek back over the Blocks, Stream Header compared, flags + padding set, `lzma_index_cat`
+    in front of the Streams parsed before) ends with LZMA_STREAM_END and an index whose abstraction is exactly
+    the list of the Streams' Records with their Stream Flags (version 0, Backward Size, Check) and Stream Padding, in
+    file order; the index satisfies the representation invariant (so every theorem above applies to it), and its
+    `lzma_index_file_size` is the length of the file.
+    Not stated: the chunked reading / explicit LZMA_SEEK_NEEDED machine (seek targets ≤ file size) — only the whole-file
+    semantics is modelled in Lean; the correspondence run compares the real decoder under many read sizes. -/
+theorem file_info_correct (ds : List StreamDesc) (hne : ds ≠ []) (hall : ∀ d ∈ ds, d.Ok) (hcomb : Combinable ds)
+    (memlimit : Nat) (hmem : MemOk (max 1 memlimit) ds) :
+    (∀ d ∈ ds, Container.streamHeaderEncode d.flags = .ok d.hdr
+        ∧ Container.streamFooterEncode d.flags d.bsz = .ok d.ftr
+        ∧ d.idx = Container.indexEncode (d.blocks.map toRecord)
+        ∧ d.bytes = d.hdr ++ d.payload ++ d.idx ++ d.ftr ++ List.replicate d.padding 0)
+    ∧ ((fileInfo memlimit (fileBytes ds).toArray).1 = .memError
+       ∨ ∃ idx, fileInfo memlimit (fileBytes ds).toArray = (.streamEnd, some idx)
+          ∧ Impl.abs idx = expectedIndex ds ∧ Impl.Inv idx
+          ∧ Impl.fileSize idx = (fileBytes ds).length ∧ Impl.streamCount idx = ds.length) := by
+  refine ⟨fun d hd => ⟨(hall d hd).hdr_eq, (hall d hd).ftr_eq, rfl, rfl⟩, ?_⟩
+  rcases fileInfo_correct ds hne hall hcomb memlimit hmem with h | ⟨idx, h1, h2, h3⟩
+  · exact Or.inl h
+  · right
+    refine ⟨idx, h1, h2, h3, ?_, ?_⟩
+    · have := (Impl.getters_refine h3).2.2.2.2.2.1
+      rw [this, h2, Spec.fileSize_of_valid (by rw [← h2]; exact h3.valid), fileBytes_length hall]
+    · have := (Impl.getters_refine h3).1
+      rw [this, h2]; simp [Spec.streamCount, expectedIndex]
+
+/-- what `expectedIndex` is: per Stream, flags (version 0, Backward Size = Index size, Check), padding, Records -/
+example (d : StreamDesc) (r : List StreamDesc) :
+    expectedIndex (d :: r) = ⟨some ⟨0, indexSize d.blocks.length (listSize d.blocks), d.check⟩, d.padding, d.blocks⟩ :: expectedIndex r := rfl
+
+/-- the hypotheses are satisfiable, e.g. by two Streams (CRC32 without Blocks and 4 bytes of padding; CRC64 with two
+    Blocks), and `fileBytes` of a Stream without Blocks is tests/files/good-0-empty.xz -/
+example :
+    let d1 : StreamDesc := ⟨1, [], [], 4⟩
+    let d2 : StreamDesc := ⟨4, [⟨9, 100⟩, ⟨21, 0⟩], List.replicate 36 7, 0⟩
+    (∀ d ∈ [d1, d2], d.Ok) ∧ Combinable [d1, d2] ∧ MemOk (max 1 100000) [d1, d2]
+    ∧ fileBytes [⟨1, [], [], 0⟩] = [0xFD, 0x37, 0x7A, 0x58, 0x5A, 0x00, 0x00, 0x01, 0x69, 0x22, 0xDE, 0x36,
+        0x00, 0x00, 0x00, 0x00, 0x1C, 0xDF, 0x44, 0x21, 0x90, 0x42, 0x99, 0x0D, 0x01, 0x00, 0x00, 0x00, 0x00, 0x01, 0x59, 0x5A] := by
+  refine ⟨?_, ?_, ?_, ?_⟩
+  · intro d hd
+    simp only [List.mem_cons, List.mem_singleton, List.not_mem_nil, or_false] at hd
+    rcases hd with rfl | rfl
+    · exact ⟨by decide, rfl, by decide, Spec.valid_init, by decide +kernel⟩
+    · refine ⟨by decide, by decide +kernel, by decide, ?_, by decide +kernel⟩
+      have h1 := Spec.append_valid Spec.valid_init (u := 9) (c := 100) (i' := [⟨none, 0, [⟨9, 100⟩]⟩]) (by decide +kernel)
+      exact Spec.append_valid h1 (u := 21) (c := 0) (i' := [⟨none, 0, [⟨9, 100⟩, ⟨21, 0⟩]⟩]) (by decide +kernel)
+  · refine ⟨⟨trivial, by decide +kernel, fun h => absurd rfl h⟩, by decide +kernel, fun _ => by decide +kernel⟩
+  · refine ⟨⟨trivial, by decide +kernel, by decide +kernel⟩, by decide +kernel, by decide +kernel⟩
+  · decide +kernel
+
+/-- full-strength random-access statement of the design (not proved: it needs the Block decoder of C05 composed with
+    this index; `file_info_correct` gives the addressing half — the index lists every Block with the offsets that are
+    the prefix sums of the file layout — and the check decodes every located Block of real files by an independent
+    decoder): for every Block `b` the index of `fileInfo bytes` lists, decoding the Block that starts at
+    `b.compressedFileOffset` yields the bytes `[b.uncompressedFileOffset, + b.uncompressedSize)` of the data -/
+def random_access_statement (blockDecode : List UInt8 → Option (List UInt8)) (bytes data : List UInt8) : Prop :=
+  ∀ idx, fileInfo (U64 - 1) bytes.toArray = (.streamEnd, some idx) →
+    ∀ info ∈ Impl.iterAll idx 2, ∀ b, info.block = some b →
+      blockDecode (bytes.drop b.compressedFileOffset) = some ((data.drop b.uncompressedFileOffset).take b.uncompressedSize)
 
 /-! ### non-vacuity -/
 
